@@ -541,11 +541,21 @@ func (w *World) renderReachable() map[*ssa.Function]bool {
 		w.reach = map[string]map[*ssa.Function]bool{}
 	}
 	if r, ok := w.reach["render"]; ok {
-		return r
+		return copyReach(r)
 	}
 	r := w.reachableFrom(w.renderRoots())
 	w.reach["render"] = r
-	return r
+	return copyReach(r)
+}
+
+// copyReach: callers extend the sets they get (render + parse, render + load …); the cached
+// set must stay what its name says, whatever ran before.
+func copyReach(m map[*ssa.Function]bool) map[*ssa.Function]bool {
+	out := make(map[*ssa.Function]bool, len(m))
+	for k, v := range m {
+		out[k] = v
+	}
+	return out
 }
 
 func (w *World) parseReachable() map[*ssa.Function]bool {
@@ -553,11 +563,11 @@ func (w *World) parseReachable() map[*ssa.Function]bool {
 		w.reach = map[string]map[*ssa.Function]bool{}
 	}
 	if r, ok := w.reach["parse"]; ok {
-		return r
+		return copyReach(r)
 	}
 	r := w.reachableFrom([]*ssa.Function{w.ssaFunc(w.method("Parser", "Parse"))})
 	w.reach["parse"] = r
-	return r
+	return copyReach(r)
 }
 
 // inPkg reports whether the SSA function belongs to the twig package.
@@ -645,12 +655,12 @@ func (w *World) renderOnlyReachable() map[*ssa.Function]bool {
 		w.reach = map[string]map[*ssa.Function]bool{}
 	}
 	if r, ok := w.reach["renderonly"]; ok {
-		return r
+		return copyReach(r)
 	}
 	cut := map[*ssa.Function]bool{w.ssaFunc(w.method("Parser", "Parse")): true}
 	r := w.reachableFromCut(w.renderRoots(), cut)
 	w.reach["renderonly"] = r
-	return r
+	return copyReach(r)
 }
 
 // pathToCut is pathTo that avoids the cut functions.
